@@ -32,6 +32,7 @@ var transparentPrefixes = []string{
 	"github.com/tendermint/tendermint/proto/tendermint/crypto",
 	"github.com/tendermint/tendermint/abci/types",
 	"github.com/icza/gog", // tiny generic helpers (If, Ptr, ...)
+	"github.com/shutter-network/shutter/shlib/puredkg", // the DKG state machine (plain Go; its shcrypto calls need stubs)
 	"slices",              // generic slice helpers of the standard library (plain loops)
 }
 
